@@ -24,8 +24,9 @@ FILES = {
 # concrete recipes per failure class of the model (harness/nodeimport mkBlock)
 S1 = ["badroot", "badxthash", "badtmark", "badoffmark"]
 S2 = ["baddispute", "badslot", "badslot0", "badticket", "badtproof", "badtorder", "badseal", "badentropy",
-      "badauthor", "badepoch", "badxtorder", "badpreimage", "badassur", "badassuridx", "badreport", "badreportord"]
-OK = ["ok", "okticket", "okpreimage", "okpreimage"]
+      "badauthor", "badepoch", "badxtorder", "badpreimage", "badassur", "badassuridx", "badreport", "badreportord",
+      "badassursig", "badreportsig", "badsealverdict", "badreportassur"]
+OK = ["ok", "okticket", "okpreimage", "okpreimage", "okreport", "okreport", "okassur", "okverdict"]
 TAU0 = [0, 3, 9, 10, 11]
 LIGHT = bool(os.environ.get("VF_LIGHT"))    # development on a busy machine: little parallelism
 
@@ -34,7 +35,17 @@ def concretise(case, rng, k):
     ck = []
     for i, c in enumerate(case["kind"]):
         pool = OK if c == "ok" else (S1 if c == "s1" else S2)
-        ck.append(pool[(k + i * 7 + rng.n(len(pool))) % len(pool)])
+        pick = pool[(k + i * 7 + rng.n(len(pool))) % len(pool)]
+        p = case["parent"][i]
+        if c == "ok" and (i + 1) in case["parent"] and (k + i) % 2 == 0:
+            # a valid block that gets children: in every second scenario it changes service storage, so
+            # that the branches of a fork (and a head vs. the parent of a rejected fork block) differ in it
+            pick = "okpreimage"
+        if p > 0 and ck[p - 1] == "okreport" and rng.n(2) == 0:
+            # the child of a block with a guarantee: make the report available (accumulation), judge it,
+            # or reject a block that has already begun to do so
+            pick = rng.pick(["okassur", "okassur", "okverdict"]) if c == "ok" else (rng.pick(["badsealverdict", "badreportassur"]) if c == "s2" else pick)
+        ck.append(pick)
     out = {"id": k, "n": case["n"], "parent": case["parent"], "ckind": ck, "seq": case["seq"],
            "expect": case["expect"], "tau0": rng.pick(TAU0), "anc": case["anc"], "gap": 0, "gapat": 0}
     if rng.n(4) == 0:
@@ -86,7 +97,7 @@ def generate(ctx):
     """Returns list of abstract scenarios (dicts) from NodeImport_Gen."""
     base = {"MaxInvalid": 2, "MaxOps": 0, "MaxRuns": 1, "Mode": '"rollback_head"', "Seed": ctx.seed % 997}
     # (N, MaxLen, Keep, Core)
-    plans = ([(2, 4, 8, "FALSE"), (3, 4, 80, "TRUE")] if ctx.quick
+    plans = ([(2, 4, 12, "FALSE"), (3, 4, 160, "TRUE")] if ctx.quick
              else [(2, 5, 2, "TRUE"), (3, 5, 12, "TRUE"), (4, 5, 200, "TRUE")])
     def one(plan):
         n, maxlen, keep, core = plan
@@ -151,7 +162,7 @@ def corrupted(usable):
 def run(ctx):
     ctx.assumptions += [
         "the Bandersnatch VRF is the deterministic pure-Go stand-in (harness/standin/vrf): seals, entropy sources and ticket proofs are forged tags that the stand-in's verifier accepts, so sealing rules are exercised but no cryptography",
-        "tiny constants (V=6, C=2, E=12); synthetic genesis with fallback-key sealing, no services, empty pools and history; valid blocks carry no extrinsics or two tickets; chains of <= 4 blocks, <= 2 intrinsically invalid, slots up to two epochs ahead",
+        "tiny constants (V=6, C=2, E=12); synthetic genesis with fallback-key sealing, two services (raw storage, solicited preimages, one with a real accumulate program), one authorizer; valid blocks are empty or carry tickets, solicited preimages, a guarantee (Ed25519 credentials of the assigned validators), assurances by all validators (a pending report becomes available and is accumulated: the program writes storage) or a wonky verdict; chains of <= 4 blocks, <= 2 intrinsically invalid, slots up to two epochs ahead",
         "in-memory repositories (JAM_FUZZ=1) as the fuzz target runs; every world is run with SetState given no ancestry and given a one-item ancestry list (ancestry bookkeeping on: fork blocks older than the newest committed block are refused)",
         "verdicts are not predicted: whether a block ought to be accepted is outside C26; the generator's expectation is used for coverage accounting only"]
     binp = None
@@ -181,7 +192,7 @@ def run(ctx):
     # ---- bookkeeping on what the driver did (no verdicts here)
     usable, unbuilt = [], []
     st = {"imports": 0, "accepted": 0, "rejected": 0, "retries": 0, "accepted_after_rejection": 0, "gets": 0,
-          "unexpected_verdicts": 0, "scen_with_rejection": 0, "epoch_crossings": 0}
+          "unexpected_verdicts": 0, "scen_with_rejection": 0, "epoch_crossings": 0, "accumulations": 0}
     by_kind, unexpected = {}, []
     side = {"checked": 0, "mismatch": 0}
     panics = []
@@ -219,6 +230,9 @@ def run(ctx):
                     k["accepted" if e["ok"] else "rejected"] += 1
                     if e["x"] in rej_blocks:
                         st["retries"] += 1
+                    px = head["parent"][e["x"] - 1]
+                    if e["ok"] and e["kind"] == "okassur" and px > 0 and head["ckind"][px - 1] == "okreport":
+                        st["accumulations"] += 1
                     if e["ok"] and seen_rej:
                         st["accepted_after_rejection"] += 1
                     if not e["ok"]:
@@ -291,6 +305,6 @@ def run(ctx):
                            % (st["unexpected_verdicts"], st["imports"], unexpected[:2]))
         if not ctx.quick:
             missing = [k for k in S1 + S2 if by_kind.get(k, {}).get("rejected", 0) == 0]
-            if missing or by_kind.get("okticket", {}).get("accepted", 0) == 0 or by_kind.get("okpreimage", {}).get("accepted", 0) == 0 or st["epoch_crossings"] == 0:
+            if missing or by_kind.get("okticket", {}).get("accepted", 0) == 0 or by_kind.get("okpreimage", {}).get("accepted", 0) == 0 or st["accumulations"] == 0 or st["epoch_crossings"] == 0:
                 raise vf.Infra("vacuity guard: recipes never rejected %s / okticket accepted %s / epoch crossings %d"
                                % (missing, by_kind.get("okticket"), st["epoch_crossings"]))
